@@ -112,10 +112,50 @@ def stream_bounds(chk, i, rng):
     chk.count(("bounds", label, n, K, mode, akind))
 
 
-STREAMS = {"perm": (stream_perm, 260, 4000), "empty": (stream_empty, 200, 3000), "bounds": (stream_bounds, 300, 4000)}
+def stream_largeperm(chk, i, rng):
+    """Permutation invariance and score-alone = score-with-gradient on shapes far beyond the model's reach (n up to 1500,
+    K up to 40, n*K*K up to 3e6): shape-dependent code paths (blocking, chunking, size thresholds) only show here."""
+    gl = [x for x in gemlib.gemini_list() if "asserstein" not in x[0]]
+    label, fac = gl[i % len(gl)]
+    g = fac()
+    obj, ovo = gemlib.obj_of(g)
+    K = int(rng.choice([3, 10, 24, 32, 40]))
+    n = int(rng.choice([120, 333, 512, 700, 900, 1500]))
+    if obj == "mmd":
+        n = min(n, 333)
+    if ovo and n * K * K > 3_000_000:
+        n = 3_000_000 // (K * K) - int(rng.integers(0, 7))
+    P = gemlib.gen_P(rng, n, K, rng.choice(["soft", "mid", "sharp"]))
+    P = np.clip(P, 1e-9, None); P /= P.sum(1, keepdims=True)
+    A = None
+    if obj == "mmd":
+        X = rng.normal(size=(n, 3))
+        A = np.exp(-0.5 * ((X[:, None, :] - X[None, :, :]) ** 2).sum(-1))
+    replay = {"gemini": label, "n": n, "K": K}
+    ps, pk = rng.permutation(n), rng.permutation(K)
+    P2 = P[ps][:, pk]
+    A2 = None if A is None else A[np.ix_(ps, ps)]
+    s = float(np.asarray(g(P, A)))
+    s2 = float(np.asarray(g(P2, A2)))
+    sg, gr = g(P, A, return_grad=True)
+    sg2, gr2 = g(P2, A2, return_grad=True)
+    tol = 1e-9 if obj != "mmd" else 1e-7
+    sc = max(1.0, abs(s))
+    if abs(s - s2) > tol * sc:
+        chk.fail(f"largeperm:score:{obj}:{'ovo' if ovo else 'ova'}", f"{label} n={n} K={K}: score {s!r} becomes {s2!r} under a consistent permutation", replay, layer="L3")
+    if abs(s - float(np.asarray(sg))) > tol * sc or abs(s2 - float(np.asarray(sg2))) > tol * sc:
+        chk.fail(f"largeperm:score-depends-on-return_grad:{obj}:{'ovo' if ovo else 'ova'}", f"{label} n={n} K={K}: score alone {s!r}/{s2!r}, with gradient {float(np.asarray(sg))!r}/{float(np.asarray(sg2))!r}", replay, layer="L3")
+    gscale = max(1.0, float(np.abs(gr).max()))
+    if gr2.shape != P2.shape or not np.allclose(gr2, gr[ps][:, pk], rtol=1e-6, atol=1e-8 * gscale):
+        chk.fail(f"largeperm:grad:{obj}:{'ovo' if ovo else 'ova'}", f"{label} n={n} K={K}: gradient is not permuted accordingly", replay, layer="L3")
+    chk.dist[f"largeperm:n>={100 * (n // 100)}:K={K}"] += 1
+    chk.count(("largeperm", label, n, K))
+
+
+STREAMS = {"largeperm": (stream_largeperm, 60, 600), "perm": (stream_perm, 260, 4000), "empty": (stream_empty, 200, 3000), "bounds": (stream_bounds, 300, 4000)}
 
 if __name__ == "__main__":
     c01.main("C13", STREAMS,
-             rule="metamorphic streams on every registry name / class x flag: consistent permutation of samples (with affinity) and clusters; appended empty cluster; "
+             rule="metamorphic streams on every registry name / class x flag: large shapes (n<=1500, K<=40) permutation + score-alone=score-with-gradient; consistent permutation of samples (with affinity) and clusters; appended empty cluster; "
                   "bounds (>=0, chi-square >= 1/2, TV/Hellinger <= 1, zero at sample-independent predictions, MI(balanced hard K-partition) = log K, finiteness on one-hot rows). "
                   "n in 2..12, K in 2..5, soft..saturated..one-hot rows, PSD/indefinite kernels, several metrics. non-trivial = non-identity permutation / n>=2; distinct = (stream, gemini, n, K, mode, affinity)")
